@@ -68,7 +68,11 @@ class InstanceManager(Generic[M]):
             self._instance = None
 
     @contextlib.contextmanager
-    def request(self, exclusive: bool = False, keep_alive: bool = False) -> Iterator[M]:
+    def request(
+        self,
+        exclusive: bool = False,
+        keep_alive: typing.Union[bool, Callable[[], bool]] = False,
+    ) -> Iterator[M]:
         if self._instance is None:
             raise tbot.error.ContextError("trying to access a closed instance")
 
@@ -90,7 +94,10 @@ class InstanceManager(Generic[M]):
         finally:
             self._current_users -= 1
 
-            if exclusive or (not keep_alive and self._current_users == 0):
+            # Whether to keep the instance alive is decided now, at release
+            # time: the flag may have been reconfigured since the request.
+            keep = keep_alive() if callable(keep_alive) else keep_alive
+            if exclusive or (not keep and self._current_users == 0):
                 # If we were the last user or the request() was an exclusive
                 # one, tear down this instance now.  Future requests will then
                 # need to re-initilize it.
@@ -361,7 +368,7 @@ class Context(typing.ContextManager):
         if not instance.is_alive():
             instance.init(context=machine_class.from_context(self))
 
-        with instance.request(exclusive, self._keep_alive) as m:
+        with instance.request(exclusive, lambda: self._keep_alive) as m:
             assert isinstance(m, machine_class), f"machine type mismatch"
 
             if machine_class not in self._teardown_order:
